@@ -584,6 +584,43 @@ func c18sPeerCases() []c18sPeerCase {
 		p.Conf.NeighborAddress = "2001:db8::1"
 		p.AfiSafis = []*api.AfiSafi{afi(bgp.RF_IPv6_UC)}
 	})
+	// two families, the FIRST of which carries one optional sub-message the second one lacks: what is listed for
+	// the second family must be what is listed for it when it is configured alone (judged in c18sPeers)
+	for _, tf := range []struct {
+		n string
+		f func(a *api.AfiSafi)
+	}{
+		{"prefix-limit", func(a *api.AfiSafi) {
+			a.PrefixLimits = &api.PrefixLimit{Family: c18sFamily(bgp.RF_IPv4_UC), MaxPrefixes: 100, ShutdownThresholdPct: 75}
+		}},
+		{"add-paths", func(a *api.AfiSafi) { a.AddPaths = &api.AddPaths{Config: &api.AddPathsConfig{Receive: true, SendMax: 4}} }},
+		{"mp-gr", func(a *api.AfiSafi) {
+			a.MpGracefulRestart = &api.MpGracefulRestart{Config: &api.MpGracefulRestartConfig{Enabled: true}}
+		}},
+		{"llgr", func(a *api.AfiSafi) {
+			a.LongLivedGracefulRestart = &api.LongLivedGracefulRestart{Config: &api.LongLivedGracefulRestartConfig{Enabled: true, RestartTime: 3600}}
+		}},
+		{"multipath", func(a *api.AfiSafi) {
+			a.UseMultiplePaths = &api.UseMultiplePaths{Config: &api.UseMultiplePathsConfig{Enabled: true},
+				Ebgp: &api.Ebgp{Config: &api.EbgpConfig{AllowMultipleAsn: true, MaximumPaths: 4}}, Ibgp: &api.Ibgp{Config: &api.IbgpConfig{MaximumPaths: 8}}}
+		}},
+		{"route-selection", func(a *api.AfiSafi) {
+			a.RouteSelectionOptions = &api.RouteSelectionOptions{Config: &api.RouteSelectionOptionsConfig{AlwaysCompareMed: true, IgnoreAsPathLength: true, ExternalCompareRouterId: true, AdvertiseInactiveRoutes: true, EnableAigp: true, IgnoreNextHopIgpMetric: true}}
+		}},
+		{"apply-policy", func(a *api.AfiSafi) {
+			a.ApplyPolicy = &api.ApplyPolicy{ImportPolicy: &api.PolicyAssignment{DefaultAction: api.RouteAction_ROUTE_ACTION_REJECT, Policies: []*api.Policy{{Name: "c18pol"}}}}
+		}},
+		{"rtc", func(a *api.AfiSafi) {
+			a.RouteTargetMembership = &api.RouteTargetMembership{Config: &api.RouteTargetMembershipConfig{DeferralTime: 30}}
+		}},
+	} {
+		tf := tf
+		add("twofam/"+tf.n, func(p *api.Peer) {
+			a := afi(bgp.RF_IPv4_UC)
+			tf.f(a)
+			p.AfiSafis = []*api.AfiSafi{a, afi(bgp.RF_IPv6_UC)}
+		})
+	}
 	add("bfd", func(p *api.Peer) {
 		p.Bfd = &api.BfdPeerConfig{Enabled: false, Port: 3784, DesiredMinimumTxInterval: 300000, RequiredMinimumReceive: 300000, DetectionMultiplier: 3}
 	})
@@ -650,6 +687,24 @@ func c18sPeers(t *testing.T, r *vr.Report, only string) {
 			Rd:       &api.RouteDistinguisher{Rd: &api.RouteDistinguisher_TwoOctetAsn{TwoOctetAsn: &api.RouteDistinguisherTwoOctetASN{Admin: 65000, Assigned: 1}}},
 			ImportRt: []*api.RouteTarget{}, ExportRt: []*api.RouteTarget{}}})
 		lostSmall := map[string]bool{}
+		// reference for the twofam/ cases: ipv6-unicast configured alone
+		var ref6 *api.AfiSafi
+		{
+			p := c18sBasePeer()
+			p.AfiSafis = []*api.AfiSafi{{Config: &api.AfiSafiConfig{Family: c18sFamily(bgp.RF_IPv6_UC), Enabled: true}}}
+			if err := x.w.s.AddPeer(x.ctx, &api.AddPeerRequest{Peer: p}); err == nil {
+				x.w.settle()
+				_ = x.w.s.ListPeer(x.ctx, &api.ListPeerRequest{Address: p.Conf.NeighborAddress}, func(q *api.Peer) {
+					for _, a := range q.AfiSafis {
+						if a.Config != nil && a.Config.Family != nil && a.Config.Family.Afi == api.Family_AFI_IP6 {
+							ref6 = proto.Clone(a).(*api.AfiSafi)
+						}
+					}
+				})
+				_ = x.w.s.DeletePeer(x.ctx, &api.DeletePeerRequest{Address: p.Conf.NeighborAddress})
+				x.w.settle()
+			}
+		}
 		for _, c := range cases {
 			if only != "" && c.Name != only {
 				continue
@@ -679,6 +734,24 @@ func c18sPeers(t *testing.T, r *vr.Report, only string) {
 			} else {
 				r.NT("peer/" + c.Name)
 				c18sAlignAfiSafis(sent, got)
+				if strings.HasPrefix(c.Name, "combo/twofam/") {
+					var g6 *api.AfiSafi
+					for _, a := range got.AfiSafis {
+						if a.Config != nil && a.Config.Family != nil && a.Config.Family.Afi == api.Family_AFI_IP6 {
+							g6 = a
+						}
+					}
+					switch {
+					case ref6 == nil || g6 == nil:
+						x.viol("C18:peer:family-not-listed", cs, "%s: ipv6-unicast is not listed (alone: %v, as second family: %v)", c.Name, ref6 != nil, g6 != nil)
+					default:
+						if leaf, detail := c18sDiff(ref6, g6); leaf != "" {
+							x.viol("C18:peer:family-depends-on-the-family-before-it:"+leaf, cs, "%s: ipv6-unicast configured without any option is listed differently after a family that has one: %s %s", c.Name, leaf, detail)
+						} else {
+							r.Outcome("peer:second-family-independent")
+						}
+					}
+				}
 				var losses []c18sLoss
 				c18sSubset(sent.ProtoReflect(), got.ProtoReflect(), "", nil, &losses)
 				if len(losses) == 0 {
